@@ -11,6 +11,8 @@ import (
 
 var probeSet = "a,b,c"
 
+var nestedDirs = []string{"team/", "team/x/", "old/"}
+
 type tree map[string]string // logical -> token
 
 func (t tree) line() string {
@@ -52,6 +54,17 @@ func genTree(r *prng.R) tree {
 	if r.Chance(10) {
 		t["q/qb.yaml"] = "q2"
 	}
+	// files in sub-directories (one and two levels): only the path-params loader reads them, but
+	// clean-up, save, backup and restore all treat the directories recursively
+	if r.Chance(30) {
+		t["p/"+prng.Pick(r, nestedDirs)+"pp.yaml"] = fmt.Sprintf("p%d", r.Range(1, 2))
+	}
+	if r.Chance(20) {
+		t["q/"+prng.Pick(r, nestedDirs)+"qa.yaml"] = fmt.Sprintf("q%d", r.Range(1, 2))
+	}
+	if r.Chance(20) {
+		t["f/"+prng.Pick(r, nestedDirs)+"z.yaml"] = fmt.Sprintf("v%d", r.Range(1, 3))
+	}
 	return t
 }
 
@@ -92,6 +105,20 @@ func genPayload(r *prng.R, t tree, shape int) []item {
 	}
 	if pick(25) {
 		items = append(items, item{"p/pa.yaml", fmt.Sprintf("p%d", r.Range(1, 2))})
+	}
+	if pick(30) {
+		// names with a directory component, in each of the three directories
+		switch r.Intn(3) {
+		case 0:
+			items = append(items, item{"p/" + prng.Pick(r, nestedDirs) + "pp.yaml", fmt.Sprintf("p%d", r.Range(1, 2))})
+		case 1:
+			items = append(items, item{"q/" + prng.Pick(r, nestedDirs) + "qa.yaml", fmt.Sprintf("q%d", r.Range(1, 2))})
+		default:
+			items = append(items, item{"f/" + prng.Pick(r, nestedDirs) + "z.yaml", fmt.Sprintf("v%d", r.Range(1, 3))})
+		}
+		if pick(40) {
+			items = append(items, item{"p/" + prng.Pick(r, nestedDirs) + "other.yaml", "p1"})
+		}
 	}
 	if pick(30) {
 		items = append(items, item{"g", fmt.Sprintf("g%d", r.Range(1, 2))})
@@ -273,6 +300,63 @@ func flow2(r *prng.R) item {
 	return item{"q/qa.yaml", fmt.Sprintf("q%d", r.Range(1, 2))}
 }
 
+// races: push B parked inside its Backup() (inside the critical section), push A arrives, B released.
+// The final tree and serving configuration must be those of some serial order of the pushes answered
+// 200 (a 226 collision is a refusal).
+func genRace(r *prng.R, t tree, kind int) []string {
+	eps := []string{"configuration", "apply_flows"}
+	valid := func() []item {
+		items := []item{{"f/" + prng.Pick(r, []string{"a", "b", "c"}) + ".yaml", fmt.Sprintf("v%d", r.Range(1, 3))}}
+		if r.Chance(40) {
+			items = append(items, item{prng.Pick(r, []string{"g", "q/qb.yaml", "p/team/pp.yaml"}), map[bool]string{true: "x", false: "x"}[true]})
+			last := &items[len(items)-1]
+			switch last.logical {
+			case "g":
+				last.tok = "g2"
+			case "q/qb.yaml":
+				last.tok = "q2"
+			default:
+				last.tok = "p2"
+			}
+		}
+		sortItems(items)
+		return items
+	}
+	refused := func() ([]item, string) {
+		items := valid()
+		switch r.Intn(3) {
+		case 0: // fails validation
+			items = append(items, item{"f/" + prng.Pick(r, []string{"d", "e"}) + ".yaml", "bad"})
+			sortItems(items)
+			return items, "none"
+		case 1: // a save fails
+			return items, "save:" + items[0].logical
+		}
+		return items, "haproxy:1" // reload fails after the switch
+	}
+	co := func() string { return prng.Pick(r, []string{"g,um", "um,g"}) }
+	var bItems, aItems []item
+	bFault := "none"
+	switch kind % 4 {
+	case 0: // B refused, A valid  (the seeded interleaving)
+		bItems, bFault = refused()
+		aItems = valid()
+	case 1: // mirrored: B valid, A refused by validation
+		bItems = valid()
+		aItems = append(valid(), item{"f/e.yaml", "bad"})
+		sortItems(aItems)
+	case 2: // both valid
+		bItems, aItems = valid(), valid()
+	default: // both refused
+		bItems, bFault = refused()
+		aItems = append(valid(), item{"f/e.yaml", "bad"})
+		sortItems(aItems)
+	}
+	hold := "hold" + strings.TrimPrefix(putLine(prng.Pick(r, eps), "PUT", "items", bItems, bFault, r.Chance(30), co()), "put")
+	a := putLine(prng.Pick(r, eps), "PUT", "items", aItems, "none", false, co())
+	return []string{hold, a, "release"}
+}
+
 func gen(r *prng.R, f proto.Flags, emit func(proto.Case)) {
 	payloads := 90
 	if f.Tier == "thorough" {
@@ -283,6 +367,10 @@ func gen(r *prng.R, f proto.Flags, emit func(proto.Case)) {
 	one := func(t tree, puts ...string) {
 		ops := []string{t.line(), "ls", "probe " + probeSet}
 		for _, p := range puts {
+			if strings.HasPrefix(p, "hold ") {
+				ops = append(ops, p) // nothing to look at yet: the push is parked
+				continue
+			}
 			ops = append(ops, p, "ls", "probe "+probeSet)
 		}
 		id++
@@ -296,6 +384,15 @@ func gen(r *prng.R, f proto.Flags, emit func(proto.Case)) {
 		rr := r.Fork()
 		t := genTree(rr)
 		one(t, genHistory(rr, t, k%5)...)
+	}
+	races := 80
+	if f.Tier == "thorough" {
+		races = 1200
+	}
+	for k := 0; k < races*f.Budget; k++ {
+		rr := r.Fork()
+		t := genTree(rr)
+		one(t, genRace(rr, t, k)...)
 	}
 	for k := 0; k < payloads; k++ {
 		rr := r.Fork()
